@@ -286,13 +286,16 @@ def ensure_build() -> tuple[bool, str]:
 
 GEN_UNITS = {  # property -> units of Gen/Source.v its source-level theorems are about
     "C03": [f"{c}_validate" for c in ("TimeStamp", "TimeInterval", "Point", "LineString", "Polygon", "BoundingBox", "MultiPoint", "MultiLineString", "MultiPolygon")] + ["MAX_FREQUENCY"],
-    "C06": ["compute_affinity_in_time", "TIME_GEOMETRY_TYPES", "BUFFER_GEOMETRY_TYPES"],
+    "C06": ["compute_affinity_in_time", "TIME_GEOMETRY_TYPES", "BUFFER_GEOMETRY_TYPES", "geometry_to_shapely", "compute_bounds_py"],
     "C11": ["buffer_timestamp", "buffer_interval", "buffer_bounding_box_geometry", "buffer_geometry", "MAX_FREQUENCY"],
-    "C12": ["intervals_overlap", "have_temporal_overlap", "have_frequency_overlap", "is_in_clip"],
+    "C12": ["intervals_overlap", "have_temporal_overlap", "have_frequency_overlap", "is_in_clip", "geometry_to_shapely", "compute_bounds_py"],
     "C14": ["segment_clip"],
     "C19": ["classification_encoding", "multilabel_encoding", "prediction_encoding"],
     "C04": ["ClipEvaluation__check_clips_match", "ClipEvaluation__check_matches", "AnnotationProject__annotations_are_part_of_the_project", "Clip__validate_times"],
-    "C05": ["compute_geometric_features"],
+    "C05": ["compute_geometric_features", "geometry_to_shapely", "compute_bounds_py"],
+    "C16": ["get_dim_range", "get_coord_index"],
+    "C17": ["get_dim_range", "crop_dim"],
+    "C20": ["get_coord_index"],
     "C08": ["iterate_over_valid_clips"],
     "C09": ["iterate_over_valid_clips"],
 }
